@@ -62,6 +62,7 @@ import io
 import logging
 import os
 import re
+import shutil
 import time
 import types
 
@@ -71,7 +72,7 @@ import gemato.recursiveloader
 from gverif import gem, refmanifest as rm, seams
 from gverif.common import fresh_root, rot
 from gverif.evidence import Stats
-from gverif.treemodel import snapshot, wipe
+from gverif.treemodel import comp_of, compress, decompress, snapshot, wipe
 
 PID = 'C11'
 LEVEL = 'model_checking'
@@ -144,8 +145,19 @@ DIST_PREFIX = b'DIST c11-dist-1.tar.gz '
 DIST_LINE = DIST_PREFIX + b'4 SHA1 ' + b'0' * 40 + b'\n'
 IGNORE_LINE = b'IGNORE c11-not-there\n'
 
+# family 'dirs'
+LOCS = ('top', 'inner')          # where a package directory goes: <root>/<pkg> or <root>/<slot dir>/<pkg>
+KINDS = {'quick': ('plain', 'mani', 'gz'), 'thorough': ('plain', 'mani', 'gz', 'xz')}
+KIND_COMP = {'mani': None, 'gz': 'gz', 'bz2': 'bz2', 'lzma': 'lzma', 'xz': 'xz'}
+HOWS = ('same', 'other')         # dir_replace: the rewritten file keeps / changes its size
+CONTENTS = ('full', 'empty')     # mani_appear: entries for every file below the directory / no entry at all
+DIR_MC_OPS = ('dir_add', 'dir_replace', 'mani_appear', 'pkg_modify_same_size', 'pkg_modify_other_size', 'pkg_add')
+DIR_PLAIN_OPS = ('dir_remove', 'pkg_delete')
+DIR_OPS = DIR_MC_OPS + DIR_PLAIN_OPS
+
 _FILES = ['a', 'b c', 'ü', 'q.x', 'ab']
 _DIRS = ['d', 'e f', 'dé', 'sub']
+_PKGS = ['pkg', 'v n', 'pä', 'new.d']
 
 
 class HarnessError(Exception):
@@ -227,9 +239,11 @@ def harness_env(tz):
 
 @contextlib.contextmanager
 def inflight_hook(k, action):
-    """Call action() once: after the k-th update_entry_for_path call that carries the
-    last_mtime keyword has returned (k >= 1), or from inside utcnow() (k == 0).  k None:
-    only count."""
+    """Call action() once: after the k-th update_entry_for_path call on a regular file that
+    returned normally (k >= 1), or from inside utcnow() (k == 0).  k None: only count.  How
+    the call is spelled (keywords, how many calls per file, whether a call belongs to the
+    walk or to the saving of the Manifests) does not matter: every return is one instant at
+    which the running update has just finished looking at some file."""
     rl = gemato.recursiveloader
     orig = rl.update_entry_for_path
     st = {'n': 0, 'fired': 0}
@@ -240,7 +254,8 @@ def inflight_hook(k, action):
 
     def wrapped(*a, **kw):
         r = orig(*a, **kw)
-        if 'last_mtime' in kw:
+        target = a[0] if a else kw.get('path')
+        if isinstance(target, (str, bytes)) and os.path.isfile(target):
             st['n'] += 1
             if k is not None and k >= 1 and st['n'] == k:
                 fire()
@@ -269,6 +284,67 @@ def slot_dir(seed):
 def initial_content(slot, seed):
     c = bytes([0x61 + (slot + seed) % 20])
     return c * (4 + 2 * slot)
+
+
+def pkg_dir(cfg, loc):
+    """Relative path of the package directory at location loc."""
+    name = rot(_PKGS, cfg['seed'])[0]
+    return name if loc == 'top' else os.path.join(slot_dir(cfg['seed']), name)
+
+
+def pkg_names(seed):
+    """Names of the three files of a package directory: the one that gets rewritten, the one
+    that can be deleted, the one that can be added."""
+    f = rot(_FILES, seed)
+    return f[3], f[4], f[0]
+
+
+def where_dir(cfg, where):
+    return slot_dir(cfg['seed']) if where == 'slotdir' else pkg_dir(cfg, where)
+
+
+def manifest_names_in(path):
+    return sorted(n for n in os.listdir(path) if n.startswith('Manifest') and os.path.isfile(os.path.join(path, n)))
+
+
+def manifest_file_name(kind):
+    comp = KIND_COMP[kind]
+    return 'Manifest' + ('.' + comp if comp else '')
+
+
+def shipped_manifest(files):
+    """Reference-written Manifest text with one valid DATA entry (size, SHA1) per file of
+    {path relative to the Manifest's directory: content}."""
+    return rm.write([rm.file_entry('DATA', n, files[n], [HASH]) for n in sorted(files)]).encode('utf8')
+
+
+def files_below(path):
+    """{relative path: content} of the regular non-Manifest files below path that are not
+    inside a deeper directory carrying a Manifest file of its own."""
+    out = {}
+    for dp, dn, fn in os.walk(path):
+        if dp != path and any(f.startswith('Manifest') for f in fn):
+            dn[:] = []
+            continue
+        dn.sort()
+        for f in fn:
+            if not f.startswith('Manifest'):
+                with open(os.path.join(dp, f), 'rb') as fh:
+                    out[os.path.relpath(os.path.join(dp, f), path)] = fh.read()
+    return out
+
+
+def write_pkg(path, kind, files, ns):
+    """(Re)create directory path with the given files and, unless kind is 'plain', a valid
+    Manifest (compressed as kind says) for them; every file gets mtime ns."""
+    if os.path.lexists(path):
+        shutil.rmtree(path)
+    os.makedirs(path)
+    for n, data in files.items():
+        write_file(os.path.join(path, n), data, ns)
+    if kind != 'plain':
+        write_file(os.path.join(path, manifest_file_name(kind)),
+                   compress(shipped_manifest(files), KIND_COMP[kind]), ns)
 
 
 def set_mtime_ns(path, ns):
@@ -342,7 +418,11 @@ def parsed(manis):
 def _parse_manifests(manis):
     out, raw, stamps, stale = {}, {}, [], []
     for p, b in manis.items():
-        st, ents = rm.parse(b.decode('utf8'))
+        try:
+            text = decompress(b, comp_of(p)).decode('utf8')
+        except Exception as e:
+            raise HarnessError(f'{p}: not readable as a{" " + comp_of(p) if comp_of(p) else ""} Manifest: {e!r}')
+        st, ents = rm.parse(text)
         if st != 'ok':
             raise HarnessError(f'reference parser: {p}: {st} {ents}')
         body = []
@@ -362,6 +442,27 @@ def _parse_manifests(manis):
     if len(stamps) != 1:
         raise HarnessError(f'top-level Manifest carries {len(stamps)} TIMESTAMP entries')
     return out, ts_epoch(stamps[0]), raw, sorted(stale)
+
+
+def unregistered(manis):
+    """Manifest files (other than the top-level one) that no MANIFEST entry of any Manifest
+    file names."""
+    named = set()
+    for p, b in manis.items():
+        for e in parsed(manis)[2][p]:
+            if e[0] == 'MANIFEST':
+                named.add(os.path.normpath(os.path.join(os.path.dirname(p), e[1])))
+    return sorted(p for p in manis if p != 'Manifest' and p not in named)
+
+
+def recorded_for(manis, rel):
+    """(size, SHA1) that the Manifests record for tree file rel, or None."""
+    for p, ents in parsed(manis)[2].items():
+        for e in ents:
+            if e[0] not in ('IGNORE', 'DIST', 'MANIFEST') and e[2] is not None \
+                    and os.path.normpath(os.path.join(os.path.dirname(p), rm.full_path(e[0], e[1]))) == rel:
+                return e[2], dict(e[3]).get(HASH, '').lower()
+    return None
 
 
 def diff_paths(ea, eb):
